@@ -22,6 +22,11 @@ def run(rep):
 
     explore.explore(rep, 'family-d1', fam, 1, bases, 'checks.oracles:oracle_c07', budget_s=900)
 
+    # two deviations for the joiner that has an output and skips every third frame (a late frame has to cross the joiner's request on the
+    # wire AND be read before the heartbeat of the frame after it)
+    explore.explore(rep, 'join-out-d2', [{**s, 'dev_window': (0, 450)} for s in fam if s['name'] in ('bal2-join-out/(0, 130)/skip-3rd', 'bal2-join-out/(0, 130)/deferred-none-3rd')], 2,
+                    ['fifo'] if quick else bases, 'checks.oracles:oracle_c07', budget_s=900)      # (deviations in the first 450 ms: the first skipped frame and its neighbours)
+
     if not quick:
         explore.explore(rep, 'core-d2', [s for s in fam if s['name'].startswith('bal2/')][:6], 2, ['fifo'], 'checks.oracles:oracle_c07', budget_s=1500)
 
